@@ -433,6 +433,17 @@ def xfast_directed() -> list[dict]:
             'add-abort-unsettled': [ta(0, gap=y0), tb(0)],
             'two-users-abort-remove': [first, ta(1, 'u2', gap=d, fast=False), tb(0, gap=d), tr(0), tb(1, 'u2'), tr(1, 'u2')],
         }
+        # An idle management task handles a request at once; one that has just run a cycle sleeps for >= 50 ms.  The
+        # same histories with a cycle kicked off 5 ms before the finalisation (a transfer of u2 is added): the
+        # finalisation is then not handled before the removal.
+        kick = ta(9, 'u2', gap=d)
+        soon = ['d', 0.005, 0]
+        for name in ('abort-remove', 'abort-remove-then-add', 'abort-add-remove', 'track-abort-remove-untrack',
+                     'abort-track-remove', 'abort-remove-track', 'abort-remove-track-untrack'):
+            steps = [dict(s_) for s_ in hist[name]]
+            k = next(n for n, s_ in enumerate(steps) if s_['op'] == 'tb')
+            steps[k]['gap'] = list(soon)
+            hist['cycle-just-ran:' + name] = steps[:k] + [kick] + steps[k:]
         for name, steps in hist.items():
             out.append({'mode': 'xfast', 'variant': f'{name}:{gap_class(g)}', 'k': '', 'beh': {},
                         'steps': [dict(s_) for s_ in steps]})
